@@ -27,6 +27,14 @@ def uses_of(n_tokens):
     return [("list",), ("callback",)] + [("gen", j) for j in range(n_tokens + 1)] + [("gen_exhausted",)]
 
 
+def second_use(tok, how, f2):
+    """The later use whose result must equal a fresh tokenizer's: a list run, or a generator that is
+    consumed now (`how` == 'pre_gen': the generator object was requested before the earlier use ran)."""
+    if how == "list":
+        return tok.tokenize(Src(f2))
+    return list(tok.tokenize(Src(f2), generator=True))
+
+
 def apply_use(tok, use, frames):
     src = Src(frames)
     if use[0] == "list":
@@ -73,9 +81,15 @@ def work(task):
                     # every distinct leftover state is paired with every second stream
                     for n2, b2 in s2_all:
                         tok = ST(_valid_tuple, mn, mx, ms, im, is_, mode)
-                        apply_use(tok, use, f1)
                         f2 = frames_of(n2, b2)
-                        got = tok.tokenize(Src(f2))
+                        if (n2 + b2) % 3 == 0:
+                            # the second stream's generator is requested first, consumed after the other use
+                            pending = tok.tokenize(Src(f2), generator=True)
+                            apply_use(tok, use, f1)
+                            got = list(pending)
+                        else:
+                            apply_use(tok, use, f1)
+                            got = second_use(tok, "list" if (n2 + b2) % 3 == 1 else "gen", f2)
                         cov["evaluations"] += 1
                         cov["transitions"] += 1
                         bad = None
@@ -153,8 +167,43 @@ def misc(rep, tier):
             except Exception as exc:
                 rep.violation("repeat split kind=%s pattern=%s kw=%r" % (kind, p, sorted(kw.items())),
                               "raised %r" % (exc,), {"kind": "misc"})
+    # a recorder (with and without overlapping windows) whose first pass was abandoned after j regions:
+    # every later split of the rewound recorder gives what a fresh reader over the recorded audio gives
+    kws_hop = [dict(min_dur=0.2, max_dur=0.6, max_silence=0.0), dict(min_dur=0.2, max_dur=0.8, max_silence=0.2),
+               dict(min_dur=0.4, max_dur=1.0, max_silence=0.2, drop_trailing_silence=True)]  # in 0.2 s blocks
+    for p, ki in itertools.product(["aAAaAAAa", "AAAAAAAA", "aaAaaAAAaA"], range(3)):
+        data = pcm(p)
+        for hop in (None, 0.1):
+            kw = kws[ki] if hop is None else kws_hop[ki]
+            for j in range(0, 3):
+                rep.add("evaluations")
+                try:
+                    bd = 0.1 if hop is None else 0.2
+                    rec = util.Recorder(data, block_dur=bd, hop_dur=hop, sr=10, sw=2, ch=1)
+                    g = core.split(rec, **kw)
+                    for _ in range(j):
+                        next(g, None)
+                    g.close()
+                    outs = []
+                    for _ in range(2):
+                        rec.rewind()
+                        outs.append([(r.data, r.start, r.end) for r in core.split(rec, **kw)])
+                    rec.rewind()
+                    fresh = util.AudioReader(rec.data, block_dur=bd, hop_dur=hop, sr=10, sw=2, ch=1)
+                    ref2 = [(r.data, r.start, r.end) for r in core.split(fresh, **kw)]
+                    if outs[0] != ref2 or outs[1] != ref2:
+                        rep.violation("abandoned recorder pattern=%s hop=%r j=%d kw=%r" % (p, hop, j, sorted(kw.items())),
+                                      "after abandoning the first pass at region %d the rewound recorder gives %r then %r, a fresh reader over "
+                                      "the recorded audio gives %r" % (j, [(s_, e_) for _, s_, e_ in outs[0]],
+                                                                        [(s_, e_) for _, s_, e_ in outs[1]], [(s_, e_) for _, s_, e_ in ref2]),
+                                      {"kind": "misc"})
+                except Exception as exc:
+                    rep.violation("abandoned recorder pattern=%s hop=%r j=%d kw=%r" % (p, hop, j, sorted(kw.items())),
+                                  "raised %r" % (exc,), {"kind": "misc"})
     # validators: verdict for a window does not depend on what was judged before
-    wins = [b"\x00\x00\x00\x00", b"\x10\x27\x10\x27", b"\xff\x7f\x00\x80", b"\x01\x00\xff\xff", b"\xe8\x03\x18\xfc", b"\x0a\x00\xf6\xff"]
+    wins = [b"\x00\x00\x00\x00", b"\x10\x27\x10\x27", b"\xff\x7f\x00\x80", b"\x01\x00\xff\xff", b"\xe8\x03\x18\xfc", b"\x0a\x00\xf6\xff",
+            # other lengths: a long loud window, a long silent one, a long faint one
+            b"\xff\x7f" * 12, b"\x00\x00" * 12, b"\x03\x00\xfd\xff" * 4, b"\x10\x27" * 6 + b"\x00\x00" * 6]
     for thr in (0, 20, 60, 80):
         for ch, uc in ((1, None), (2, None), (2, "mix"), (2, 1)):
             freshv = {w: bool(util.AudioEnergyValidator(thr, 2, ch, uc).is_valid(w)) for w in wins}
